@@ -77,6 +77,22 @@ class _Base:
                 if P is None:
                     continue
                 st = self._omv_styles.get('%s|%s' % (o, k), 'dense')
+                t = self._omv_T[o]
+                if self._omv_cs.get('const_partials') and k not in t['B'] and st in ('dense', 'rowcol', 'diag'):
+                    # purely linear block: a CONSTANT partial, declared with val= and never assigned again
+                    sign = -1.0 if self._omv_cs['kind'] == 'imp' else 1.0
+                    A = sign * np.asarray(t['A'][k], dtype=float)
+                    if not hasattr(self, '_omv_const'):
+                        self._omv_const = set()
+                    self._omv_const.add((o, k))
+                    if st == 'dense':
+                        self.declare_partials(o, k, val=A.copy())
+                    elif st == 'rowcol':
+                        rows, cols = np.nonzero(P)
+                        self.declare_partials(o, k, rows=rows, cols=cols, val=A[rows, cols].copy())
+                    else:
+                        self.declare_partials(o, k, diagonal=True, val=np.diag(A).copy())
+                    continue
                 if st in ('fd', 'cs'):
                     opts = self._omv_cs.get('approx', {})
                     self.declare_partials(o, k, method=st, **opts)
@@ -110,7 +126,7 @@ class _Base:
                 if P is None:
                     continue
                 st = self._omv_styles.get('%s|%s' % (o, k), 'dense')
-                if st in ('fd', 'cs', 'matfree'):
+                if st in ('fd', 'cs', 'matfree') or (o, k) in getattr(self, '_omv_const', ()):
                     continue
                 D = sign * self._omv_dense_block(o, k, _flat(inputs[k]))
                 D = np.broadcast_to(D, P.shape)
